@@ -500,6 +500,59 @@ func clauseHash(cc *ast.CaseClause) string {
 	return fmt.Sprintf("%x", sha256.Sum256([]byte(src(cc))))[:16]
 }
 
+// clauseWith: the case clause of cfg, among those of the given kind, whose body contains the text marker.
+func clauseWith(m map[string][]*ast.CaseClause, kind, marker string) *ast.CaseClause {
+	var found *ast.CaseClause
+	for _, cc := range m[kind] {
+		for _, st := range cc.Body {
+			if strings.Contains(src(st), marker) {
+				found = cc
+			}
+		}
+	}
+	return found
+}
+
+// findIf: the first if statement under n whose condition has the given text.
+func findIf(n ast.Node, cond string) *ast.IfStmt {
+	var res *ast.IfStmt
+	if n == nil {
+		return nil
+	}
+	ast.Inspect(n, func(m ast.Node) bool {
+		if is, ok := m.(*ast.IfStmt); ok && res == nil && src(is.Cond) == cond {
+			res = is
+		}
+		return res == nil
+	})
+	return res
+}
+
+// endsWith: the last statement of the block has the given text.
+func endsWith(b *ast.BlockStmt, text string) bool {
+	return b != nil && len(b.List) > 0 && src(b.List[len(b.List)-1]) == text
+}
+
+// setsErr: the block assigns a cfgErrorf to err (or returns one).
+func setsErr(b *ast.BlockStmt) bool {
+	return b != nil && strings.Contains(src(b), "cfgErrorf(")
+}
+
+// innerCase: the clause of a tagless switch under n whose (single) expression contains the marker.
+func innerCase(n ast.Node, marker string) *ast.CaseClause {
+	var res *ast.CaseClause
+	if n == nil {
+		return nil
+	}
+	ast.Inspect(n, func(m ast.Node) bool {
+		if cc, ok := m.(*ast.CaseClause); ok && res == nil && len(cc.List) == 1 && strings.Contains(src(cc.List[0]), marker) {
+			res = cc
+		}
+		return res == nil
+	})
+	return res
+}
+
 func main() {
 	common.Main("C12", func(repo string) (string, error) {
 		fsetT, tc, err := common.ParseFile(repo, "interp/typecheck.go")
@@ -519,6 +572,10 @@ func main() {
 			return "", err
 		}
 		fsetP, pg, err := common.ParseFile(repo, "interp/program.go")
+		if err != nil {
+			return "", err
+		}
+		fsetV, vl, err := common.ParseFile(repo, "interp/value.go")
 		if err != nil {
 			return "", err
 		}
@@ -584,6 +641,53 @@ func main() {
 				return true
 			})
 		}
+		// convertUntyped: the arm for basic target types starts by rejecting nil and a boolean / non-boolean mix
+		convGuard := false
+		if fd := common.FindFunc(tc, "typecheck", "convertUntyped"); fd != nil {
+			if cc := innerCase(fd, "isNumber(ttyp) || isString(ttyp) || isBoolean(ttyp)"); cc != nil && src(cc.List[0]) == "isNumber(ttyp) || isString(ttyp) || isBoolean(ttyp)" && len(cc.Body) > 0 {
+				if is, ok := cc.Body[0].(*ast.IfStmt); ok && src(is.Cond) == "n.typ.isNil() || isBoolean(ntyp) != isBoolean(ttyp)" && endsWith(is.Body, "return convErr") {
+					convGuard = true
+				}
+			}
+		}
+		// assignableTo: `if t.isNil() || o.isNil() { return false }` before the reflect AssignableTo test
+		nilGuard := false
+		if fd := common.FindFunc(ty, "itype", "assignableTo"); fd != nil {
+			seenGuard := false
+			for _, st := range fd.Body.List {
+				is, ok := st.(*ast.IfStmt)
+				if !ok {
+					continue
+				}
+				if src(is.Cond) == "t.isNil() || o.isNil()" && len(is.Body.List) == 1 && src(is.Body.List[0]) == "return false" {
+					seenGuard = true
+				}
+				if src(is.Cond) == "t.TypeOf().AssignableTo(o.TypeOf())" {
+					nilGuard = seenGuard
+					break
+				}
+			}
+		}
+		// assignment: which variable receives the default type of an untyped operand assigned to an interface,
+		// which one is passed to convertUntyped, and `typ` itself goes to assignableTo
+		constIface := false
+		if fd := common.FindFunc(tc, "typecheck", "assignment"); fd != nil {
+			lhs, conv := "", ""
+			ast.Inspect(fd, func(n ast.Node) bool {
+				switch x := n.(type) {
+				case *ast.AssignStmt:
+					if len(x.Lhs) == 1 && len(x.Rhs) == 1 && src(x.Rhs[0]) == "n.typ.defaultType(n.rval, check.scope)" {
+						lhs = src(x.Lhs[0])
+					}
+				case *ast.CallExpr:
+					if src(x.Fun) == "check.convertUntyped" && len(x.Args) == 2 && src(x.Args[0]) == "n" {
+						conv = src(x.Args[1])
+					}
+				}
+				return true
+			})
+			constIface = lhs == "ctyp" && conv == "ctyp" && strings.Contains(src(fd), "ctyp := typ") && strings.Contains(src(fd), "!n.typ.assignableTo(typ)")
+		}
 		fmt.Fprintf(&b, `/-- interp/typecheck.go unaryOpPredicates, binaryOpPredicates, bitlen; interp/type.go kind predicates -/
 def opFacts : OpFacts :=
   { unary :=
@@ -595,20 +699,44 @@ def opFacts : OpFacts :=
     predCalls :=
     [%s],
     bitlen := [%s],
-    signedRepr := %s }
-`, table(tc, "unaryOpPredicates"), table(tc, "binaryOpPredicates"), strings.Join(pk, ",\n     "), strings.Join(pc, ",\n     "), strings.Join(bl, ", "), signedRepr)
+    signedRepr := %s,
+    convNilBoolGuard := %v,
+    assignNilGuard := %v,
+    constIfaceChecked := %v }
+`, table(tc, "unaryOpPredicates"), table(tc, "binaryOpPredicates"), strings.Join(pk, ",\n     "), strings.Join(pc, ",\n     "), strings.Join(bl, ", "), signedRepr,
+			convGuard, nilGuard, constIface)
 
 		// ---- call sites and guards
 		cl := cfgClauses(cfg)
-		landLor := false
+		// landExpr / lorExpr: `if err = check.logicalExpr(n); err != nil { break }` in both clauses
+		landLor := true
 		for _, k := range []string{"landExpr", "lorExpr"} {
-			if c := lastClause(cl, k); c != nil && callsChecker(c) {
-				landLor = true
+			ok := false
+			if c := lastClause(cl, k); c != nil {
+				for _, st := range c.Body {
+					if is, isIf := st.(*ast.IfStmt); isIf && is.Init != nil && src(is.Init) == "err = check.logicalExpr(n)" && src(is.Cond) == "err != nil" && endsWith(is.Body, "break") {
+						ok = true
+					}
+				}
+			}
+			if !ok {
+				landLor = false
 			}
 		}
-		send := false
+		send, sendDir := false, false
 		if c := lastClause(cl, "sendStmt"); c != nil {
-			send = callsChecker(c)
+			for _, st := range c.Body {
+				is, isIf := st.(*ast.IfStmt)
+				if !isIf {
+					continue
+				}
+				if is.Init != nil && src(is.Init) == `err = check.assignment(n.child[1], ctyp.elem(), "send")` && src(is.Cond) == "err != nil" && endsWith(is.Body, "break") {
+					send = true
+				}
+				if src(is.Cond) == "n.child[0].typ.TypeOf().ChanDir() == reflect.RecvDir" && setsErr(is.Body) && endsWith(is.Body, "break") {
+					sendDir = true
+				}
+			}
 		}
 		guardedAll, anyBool := true, false
 		for _, k := range []string{"ifStmt0", "ifStmt1", "ifStmt2", "ifStmt3", "forStmt2", "forStmt3", "forStmt5", "forStmt7"} {
@@ -647,6 +775,11 @@ def opFacts : OpFacts :=
 					if !ok || len(in.Body.List) != 1 || src(in.Body.List[0]) != "continue" {
 						continue
 					}
+					if in.Init != nil && src(in.Init) == "_, ok := typ.methods()[name]" && src(in.Cond) == "ok" {
+						// 5c3b0c5: a method promoted from an embedded interface; in the fragment (no embedding) the methods
+						// lookupMethod finds are exactly those of typ.methods(), so this test never fires after a failed lookup
+						continue
+					}
 					found++
 					switch src(in.Cond) {
 					case "!token.IsExported(name) && isBin(typ)":
@@ -666,17 +799,170 @@ def opFacts : OpFacts :=
 				assertSkip = ".other " + common.LeanStr(fmt.Sprintf("%d skip tests in the missing-method block", found))
 			}
 		}
+		// returnStmt: representability of a numeric constant in the result type
+		retConst := false
+		if c := lastClause(cl, "returnStmt"); c != nil {
+			for _, st := range c.Body {
+				if is := findIf(st, "c.typ.untyped && isNumber(typ.TypeOf())"); is != nil && len(is.Body.List) == 1 {
+					if in, ok := is.Body.List[0].(*ast.IfStmt); ok && in.Init != nil && src(in.Init) == "err = check.representable(c, typ.TypeOf())" && src(in.Cond) == "err != nil" && endsWith(in.Body, "return") {
+						retConst = true
+					}
+				}
+			}
+		}
+		// binaryExpr: conversion errors kept for comparisons, zero-divisor cases
+		cmpErrKept, opAssignZero, quoFloat := false, false, false
+		if fd := common.FindFunc(tc, "typecheck", "binaryExpr"); fd != nil {
+			body := src(fd)
+			if strings.Contains(body, "err0 := check.convertUntyped(c0, c1.typ) err1 := check.convertUntyped(c1, c0.typ)") {
+				if is := findIf(fd, "isComparisonAction(a)"); is != nil && len(is.Body.List) == 3 &&
+					src(is.Body.List[0]) == "if err0 != nil { return err0 }" && src(is.Body.List[1]) == "if err1 != nil { return err1 }" &&
+					src(is.Body.List[2]) == "return check.comparison(n)" {
+					cmpErrKept = true
+				}
+			}
+			remAssign, quoAssign := false, false
+			ast.Inspect(fd, func(n ast.Node) bool {
+				cc, ok := n.(*ast.CaseClause)
+				if !ok {
+					return true
+				}
+				var names []string
+				for _, e := range cc.List {
+					names = append(names, src(e))
+				}
+				l := strings.Join(names, ",")
+				switch l {
+				case "aRem,aRemAssign":
+					remAssign = len(cc.Body) == 1 && strings.HasPrefix(src(cc.Body[0]), "if zeroConst(c1) { return n.cfgErrorf(")
+				case "aQuo,aQuoAssign", "aQuo":
+					quoAssign = l == "aQuo,aQuoAssign"
+					if len(cc.Body) > 0 {
+						if is, ok := cc.Body[0].(*ast.IfStmt); ok && src(is.Cond) == "zeroConst(c1) && (c0.rval.IsValid() || isInt(c0.typ.TypeOf()))" && setsErr(is.Body) {
+							quoFloat = true
+						}
+					}
+				}
+				return true
+			})
+			opAssignZero = remAssign && quoAssign
+		}
+		zeroMode := ".other " + common.LeanStr("unrecognised: zeroConst")
+		if fd := common.FindFunc(tc, "", "zeroConst"); fd != nil {
+			var parts []string
+			for _, st := range fd.Body.List {
+				parts = append(parts, src(st))
+			}
+			switch strings.Join(parts, " ; ") {
+			case "return n.typ.untyped && constant.Sign(n.rval.Interface().(constant.Value)) == 0":
+				zeroMode = ".untypedSign"
+			case "if !n.rval.IsValid() || !isNumber(n.typ.TypeOf()) { return false } ; if c, ok := n.rval.Interface().(constant.Value); ok { return constant.Sign(c) == 0 } ; return !n.rval.CanSet() && n.rval.IsZero()":
+				zeroMode = ".numericConst"
+			default:
+				zeroMode = ".other " + common.LeanStr(strings.Join(parts, " ; "))
+			}
+		}
+		// index: negative constant index
+		indexNeg := false
+		if fd := common.FindFunc(tc, "typecheck", "index"); fd != nil {
+			for _, st := range fd.Body.List {
+				is, ok := st.(*ast.IfStmt)
+				if !ok {
+					continue
+				}
+				if src(is.Cond) == "vInt(n.rval) < 0" && len(is.Body.List) == 1 && strings.HasPrefix(src(is.Body.List[0]), "return n.cfgErrorf(") {
+					indexNeg = true
+				}
+				if strings.Contains(src(is.Cond), "max < 1") {
+					break // the sign test must come before the `max < 1` exit
+				}
+			}
+		}
+		// indexExpr: the three operand tests of 8a6620e
+		indexOperand := false
+		if c := lastClause(cl, "indexExpr"); c != nil {
+			kindTest, genTest, nilTest := false, false, false
+			for _, st := range c.Body {
+				if is, ok := st.(*ast.IfStmt); ok {
+					if src(is.Cond) == "t.cat != funcT && t.cat != genericT && t.cat != structT" && strings.Contains(src(is.Body), "default: err = n.cfgErrorf(") && endsWith(is.Body, "if err != nil { break }") {
+						kindTest = true
+					}
+					if src(is.Cond) == "n.typ == nil" && setsErr(is.Body) && endsWith(is.Body, "break") {
+						nilTest = true
+					}
+				}
+				if strings.HasPrefix(src(st), "n.findex = sc.add(n.typ)") && !nilTest {
+					break
+				}
+				if is := findIf(st, "!isGeneric(t)"); is != nil && setsErr(is.Body) && endsWith(is.Body, "break") {
+					genTest = true
+				}
+			}
+			indexOperand = kindTest && genTest && nilTest
+		}
+		// assignStmt: the receive shortcut is skipped when the types differ
+		recvDecl := false
+		if c := clauseWith(cl, "assignStmt", "check.assignExpr(n, dest, src)"); c != nil {
+			if ic := innerCase(c, "src.action == aRecv && !isCommRecvAssign(n)"); ic != nil && len(ic.Body) > 0 {
+				if is, ok := ic.Body[0].(*ast.IfStmt); ok && src(is.Cond) == "dest.typ.id() != src.typ.id()" && endsWith(is.Body, "break") {
+					recvDecl = true
+				}
+			}
+		}
+		// unaryExpr: the interface-destination test of the `v = <op> x` shortcut also applies to a receive
+		recvAssign := false
+		if c := lastClause(cl, "unaryExpr"); c != nil {
+			if ic := innerCase(c, "n.anc.kind == assignStmt && n.anc.action == aAssign"); ic != nil {
+				for _, st := range ic.Body {
+					if is, ok := st.(*ast.IfStmt); ok && strings.Contains(src(is.Cond), "isInterface(dest.typ) && !isInterface(n.typ)") {
+						recvAssign = src(is.Cond) == "dest.typ != nil && isInterface(dest.typ) && !isInterface(n.typ)"
+					}
+				}
+			}
+		}
+		// callExpr: check.callValue
+		callValue := false
+		if c := clauseWith(cl, "callExpr", "check.arguments("); c != nil {
+			for _, st := range c.Body {
+				if is, ok := st.(*ast.IfStmt); ok && src(is.Cond) == "err == nil && n.action != aConvert" && len(is.Body.List) == 1 && src(is.Body.List[0]) == "err = check.callValue(n)" {
+					callValue = true
+				}
+			}
+		}
+		// conversion: typed constants are checked by representable, which reads plain Go values through constValue
+		convTyped := false
+		if fd := common.FindFunc(tc, "typecheck", "conversion"); fd != nil {
+			if is := findIf(fd, "c == nil && n.rval.IsValid() && isNumber(typ.TypeOf())"); is != nil && len(is.Body.List) == 1 &&
+				src(is.Body.List[0]) == "if err := check.representable(n, typ.TypeOf()); err != nil { return err }" {
+				if rd := common.FindFunc(tc, "typecheck", "representable"); rd != nil && strings.Contains(src(rd), "c := constValue(n.rval) if c == nil { return nil }") {
+					convTyped = true
+				}
+			}
+		}
 		fmt.Fprintf(&b, `/-- interp/cfg.go call sites of the checker and guards; interp/typecheck.go arguments -/
 def tcFacts : TcFacts :=
   { ops := opFacts,
     landLorChecked := %v,
     sendValueChecked := %v,
+    sendDirChecked := %v,
     argCountCmp := %s,
     retTooManyCmp := %s,
     retTooFewCmp := %s,
     condBoolGuarded := %v,
-    assertSkipMissing := %s }
-`, landLor, send, argCmp, retMany, retFew, guardedAll, assertSkip)
+    assertSkipMissing := %s,
+    retConstChecked := %v,
+    cmpConvErrKept := %v,
+    zeroConst := %s,
+    opAssignZeroChecked := %v,
+    quoFloatZeroOk := %v,
+    indexNegChecked := %v,
+    indexOperandChecked := %v,
+    recvDeclKeepsType := %v,
+    recvAssignChecked := %v,
+    callValueChecked := %v,
+    convTypedConstChecked := %v }
+`, landLor, send, sendDir, argCmp, retMany, retFew, guardedAll, assertSkip, retConst, cmpErrKept, zeroMode, opAssignZero, quoFloat,
+			indexNeg, indexOperand, recvDecl, recvAssign, callValue, convTyped)
 
 		// ---- pipeline
 		funcs, err := pkgFuncs(repo)
@@ -767,14 +1053,14 @@ def pipeline : PipelineFacts :=
 		var rows []string
 		row := func(label, h string) { rows = append(rows, "("+common.LeanStr(label)+", "+common.LeanStr(h)+")") }
 		for _, fn := range []string{"op", "assignment", "assignExpr", "unaryExpr", "shift", "comparison", "binaryExpr", "index", "conversion",
-			"unpackParams", "arguments", "argument", "convertUntyped", "representable", "convertConst", "typeAssertionExpr"} {
+			"unpackParams", "arguments", "argument", "convertUntyped", "representable", "convertConst", "typeAssertionExpr", "logicalExpr", "callValue"} {
 			row("typecheck."+fn, common.FuncHash(fsetT, tc, "typecheck", fn))
 		}
-		for _, fn := range []string{"zeroConst", "getArg", "representableConst", "isShiftAction", "isComparisonAction"} {
+		for _, fn := range []string{"zeroConst", "getArg", "representableConst", "isShiftAction", "isComparisonAction", "isComparison"} {
 			row(fn, common.FuncHash(fsetT, tc, "", fn))
 		}
 		for _, fn := range []string{"assignableTo", "convertibleTo", "ordered", "equals", "comparable", "implements", "defaultType", "hasNil", "isNil",
-			"methods", "id", "refType"} {
+			"methods", "id", "refType", "needsPtrFor"} {
 			row("itype."+fn, common.FuncHash(fsetY, ty, "itype", fn))
 		}
 		for _, fn := range []string{"lookupFieldOrMethod", "isBin"} {
@@ -799,6 +1085,12 @@ def pipeline : PipelineFacts :=
 			"ifStmt0", "ifStmt1", "ifStmt2", "ifStmt3", "forStmt2", "forStmt3", "forStmt5", "forStmt7", "identExpr", "typeAssertExpr", "typeSwitch"} {
 			row("cfg case "+k, clauseHash(lastClause(cl, k)))
 		}
+		row("constValue", common.FuncHash(fsetV, vl, "", "constValue"))
+		if pre := cl["binaryExpr"]; len(pre) > 0 {
+			row("cfg pre-order case binaryExpr", clauseHash(pre[0])) // type propagation from the enclosing statement / operator
+		}
+		row("cfg case assignStmt", clauseHash(clauseWith(cl, "assignStmt", "check.assignExpr(n, dest, src)")))
+		row("cfg case callExpr", clauseHash(clauseWith(cl, "callExpr", "check.arguments(")))
 		b.WriteString("/-- fingerprints of the functions and cfg.go clauses that Model/Typecheck.lean transcribes -/\ndef sourceHashes : List (String × String) :=\n  [" +
 			strings.Join(rows, ",\n   ") + "]\nend YaegiVerif.Generated.C12\n")
 		_ = os.Stderr
